@@ -1,5 +1,96 @@
-(* C08 - stub, theorems follow *)
-From RP Require Import Lib.Base Lib.Varint Model.Net Model.Client Spec.NetSpec Proofs.NetProofs.
-Theorem stub_probe_bytes : probe_bytes = [2; 0; 0; 0; 8; 1].
-Proof. exact probe_bytes_eq. Qed.
-Print Assumptions stub_probe_bytes.
+(* C08 - Receive framing is independent of TCP segmentation and timing.
+   Model: Model/Client.v bin_loop / asc_loop (connecttopanel.go:178-223) over the environment
+   Model/Net.v; a connection after negotiation is [C now tb close] where [tb] is the list of
+   (arrival time, byte) still to come.  "Every way the byte stream is cut into TCP segments and
+   spaced in time" = every assignment of non-decreasing arrival times to the bytes: the
+   hypotheses below mention only the byte VALUES (the concatenation) and, for binary frames,
+   the in-frame timing the property text itself excludes ("the 2 s in-frame timeout"): a
+   frame's header is complete < 2 s after its first byte and its payload < 2 s after its header
+   (Spec.NetSpec.frames_timely).  Gaps BETWEEN frames are unconstrained.
+   proto.Unmarshal and the ASCII converter are arbitrary functions [unmarshal], [decode].
+   PARTIAL (DESIGN section 5): Go scheduler, kernel TCP and timers are exercised by the tie
+   (harness/net: real sockets, all single and double cut points, dribble, idle gaps), not modelled. *)
+From RP Require Import Lib.Base Lib.Varint Lib.Strings Model.Net Model.Client Spec.NetSpec
+     Proofs.NetProofs Proofs.NetFrameProofs.
+
+(* Binary: for every sequence of payloads (any bytes, any sizes below the limit, empty
+   included) and every timing of the resulting byte stream that keeps each frame timely, the
+   client delivers exactly unmarshal(payload) for each frame, once, in order, nothing else,
+   and stays connected. *)
+Theorem c08_bin_framing : forall (M : Type) (unmarshal : bytes -> M) ps tb nw fuel,
+  Forall (fun p => zlen p < limit) ps ->
+  map snd tb = concat (map frame ps) ->
+  tb_sorted nw tb = true ->
+  frames_timely tb ps = true ->
+  (length tb < fuel)%nat -> (length ps < fuel)%nat ->
+  map snd (deliveries M (fst (bin_loop M unmarshal fuel (C nw tb None)))) = map unmarshal ps /\
+  snd (bin_loop M unmarshal fuel (C nw tb None)) = Waiting.
+Proof. exact bin_framing. Qed.
+Print Assumptions c08_bin_framing.
+
+(* the same for a peer script cut into segments in any way: only its concatenation matters *)
+Theorem c08_bin_framing_script : forall (M : Type) (unmarshal : bytes -> M) ps (s : script) nw fuel,
+  Forall (fun p => zlen p < limit) ps ->
+  bytes_of s = concat (map frame ps) ->
+  tb_sorted nw (tbytes s) = true ->
+  frames_timely (tbytes s) ps = true ->
+  (length (tbytes s) < fuel)%nat -> (length ps < fuel)%nat ->
+  map snd (deliveries M (fst (bin_loop M unmarshal fuel (C nw (tbytes s) None)))) = map unmarshal ps.
+Proof. intros M u ps s nw fuel H1 H2 H3 H4 H5 H6. exact (proj1 (bin_framing M u ps (tbytes s) nw fuel H1 H2 H3 H4 H5 H6)). Qed.
+Print Assumptions c08_bin_framing_script.
+
+(* idle periods between messages, however long, and any two timings of the same stream:
+   the deliveries do not depend on the timing at all (both equal the frames sent) *)
+Theorem c08_timing_independent : forall (M : Type) (unmarshal : bytes -> M) ps tb tb' nw nw' fuel,
+  Forall (fun p => zlen p < limit) ps ->
+  map snd tb = concat (map frame ps) -> map snd tb' = concat (map frame ps) ->
+  tb_sorted nw tb = true -> tb_sorted nw' tb' = true ->
+  frames_timely tb ps = true -> frames_timely tb' ps = true ->
+  (length tb < fuel)%nat -> (length tb' < fuel)%nat -> (length ps < fuel)%nat ->
+  map snd (deliveries M (fst (bin_loop M unmarshal fuel (C nw tb None)))) =
+  map snd (deliveries M (fst (bin_loop M unmarshal fuel (C nw' tb' None)))).
+Proof.
+  intros M u ps tb tb' nw nw' fuel H1 H2 H2' H3 H3' H4 H4' H5 H5' H6.
+  rewrite (proj1 (bin_framing M u ps tb nw fuel H1 H2 H3 H4 H5 H6)).
+  rewrite (proj1 (bin_framing M u ps tb' nw' fuel H1 H2' H3' H4' H5' H6)). reflexivity.
+Qed.
+Print Assumptions c08_timing_independent.
+
+(* The general statement behind it: on EVERY timed stream (sorted arrival times, with or without
+   a close after it) the loop delivers exactly what the reference reading of the stream
+   (Spec.NetSpec.walk_bin, the oracle run on the implementation) yields, at the completion
+   times, and ends as it says. *)
+Theorem c08_bin_refines_reference : forall (M : Type) (unmarshal : bytes -> M) fuel tb nw c,
+  tb_sorted nw tb = true -> close_after c nw tb -> (length tb < fuel)%nat ->
+  deliveries M (fst (bin_loop M unmarshal fuel (C nw tb c))) = map (fun g => (snd g, unmarshal (fst g))) (fst (walk_bin fuel tb)) /\
+  Forall (fun n => n < limit) (allocs M (fst (bin_loop M unmarshal fuel (C nw tb c)))) /\
+  snd (bin_loop M unmarshal fuel (C nw tb c)) = spec_outcome (snd (walk_bin fuel tb)) c.
+Proof. exact bin_refines. Qed.
+Print Assumptions c08_bin_refines_reference.
+
+(* ASCII: lines free of LF, each terminated by LF or CRLF, any timing and cutting whatsoever
+   (no deadline exists in ASCII mode): exactly decode(TrimSpace(line)) per line, in order;
+   in particular no CR is left on a line (trim_space (l ++ CRLF) = trim_space l). *)
+Theorem c08_ascii_framing : forall (M : Type) (decode : bytes -> M) (ls : list (bytes * bool)) (tb : list (Z * Z)) nw fuel,
+  Forall (fun le => no_lf (fst le) = true) ls ->
+  map snd tb = concat (map (fun le => fst le ++ eol (snd le)) ls) ->
+  (length tb < fuel)%nat ->
+  map snd (deliveries M (fst (asc_loop M decode fuel (C nw tb None)))) = map (fun le => decode (trim_space (fst le))) ls /\
+  snd (asc_loop M decode fuel (C nw tb None)) = Waiting.
+Proof. exact ascii_framing. Qed.
+Print Assumptions c08_ascii_framing.
+
+Theorem c08_terminator_trimmed : forall l e, trim_space (l ++ eol e) = trim_space l.
+Proof. exact trim_space_eol. Qed.
+Print Assumptions c08_terminator_trimmed.
+
+(* non-vacuity: two frames, the second one an hour after the first, header split 1.5 s *)
+Example c08_ex_idle_hour :
+  let tb := [(10, 2); (10, 0); (10, 0); (10, 0); (10, 8); (10, 2);
+             (3600000, 1); (3600000, 0); (3601500, 0); (3601500, 0); (3603000, 7)] in
+  frames_timely tb [[8; 2]; [7]] = true /\ tb_sorted 5 tb = true /\
+  map snd (deliveries bytes (fst (bin_loop bytes (fun p => p) 20 (C 5 tb None)))) = [[8; 2]; [7]].
+Proof. repeat split; reflexivity. Qed.
+Example c08_ex_crlf :
+  map snd (deliveries bytes (fst (asc_loop bytes (fun l => l) 20 (C 0 [(1, 97); (1, 13); (9, 10); (9, 32); (20, 98); (30, 10)] None)))) = [[97]; [98]].
+Proof. reflexivity. Qed.
